@@ -510,6 +510,22 @@ func (h *harness) judge(out *sim.Outcome) *simrt.Violation {
 				if w, n := maxOf(cntLT); n > cntLE[cr.key] {
 					add("majority-not-most-frequent", "%s: returned %s (reported %d times) although %s had been reported %d times", desc, cr.key, cntLE[cr.key], w, n)
 				}
+				// Deciding before the soft deadline (half the timeout; from then on some majority strategies
+				// settle for what they have) while nodes are still outstanding is only sound once the value
+				// holds a strict majority of the configured nodes: otherwise the nodes still to report can make
+				// another value the most frequently reported one.
+				if t < s+(hard-s)/2 {
+					returned := 0
+					for _, r := range rs {
+						if r.done && r.retT <= t && !r.dup {
+							returned++
+						}
+					}
+					if returned < pl.N && cntLE[cr.key] < pl.N/2+1 {
+						add("majority-decided-without-majority", "%s: returned %s at +%v, before even the soft deadline, when only %d of %d nodes had answered and the value had %d reports (strict majority is %d)", desc, cr.key, t-s, returned, pl.N, cntLE[cr.key], pl.N/2+1)
+					}
+					probe("majority:decided-before-soft-deadline")
+				}
 				probe("majority:value")
 				if cntLE[cr.key] >= 2 {
 					probe("majority:value-reported>=2")
